@@ -309,6 +309,27 @@ struct Exec {
 				if(Cfg::arena_of(pool0_.at(i).get_allocator()) != m.arena) fail("I4-allocator", who + ": get_allocator() is on arena" + std::to_string(Cfg::arena_of(pool0_.at(i).get_allocator())) + " but the model expects arena" + std::to_string(m.arena));
 			}
 		}
+		// storage of different arrays is pairwise disjoint ("shares no storage")
+		{
+			struct Span { unsigned char const* lo; unsigned char const* hi; int D, i; };
+			std::vector<Span> spans;
+			for(int D = DMIN; D <= DMAX; ++D)
+				with_dim(D, [&](auto Dc) {
+					constexpr int DD = decltype(Dc)::value;
+					for(int i = 0; i < NSLOT; ++i)
+						if(M.at(DD, i).alive && pool<DD>().at(i).num_elements() > 0) {
+							auto const* b = reinterpret_cast<unsigned char const*>(raw_of(pool<DD>().at(i).data_elements()));
+							spans.push_back({b, b + static_cast<std::size_t>(pool<DD>().at(i).num_elements()) * sizeof(E), DD, i});
+						}
+				});
+			for(std::size_t x = 0; x < spans.size(); ++x)
+				for(std::size_t y = x + 1; y < spans.size(); ++y)
+					if(spans[x].lo < spans[y].hi && spans[y].lo < spans[x].hi) {
+						fail("I4-shared-storage", "array<" + std::to_string(spans[x].D) + ">#" + std::to_string(spans[x].i) + " and array<" + std::to_string(spans[y].D) + ">#" + std::to_string(spans[y].i) + " overlap in storage: a mutation of one is visible through the other");
+						x = spans.size();
+						break;
+					}
+		}
 		// I1: live blocks == owners
 		int live = 0;
 		for(int a = 0; a < World::NARENA; ++a) live += W.live_blocks(a);
